@@ -99,13 +99,18 @@ def stream_attr(s):
     return segs
 
 
+def with_root(root, name):
+    if root is None or root == '': return name
+    return root + name if root.endswith('/') else root + '/' + name
+
+
 def map_segs(mp):
     if mp is None: return []
     segs = []
     for s in v3_decode(mp['mappings']):
         if len(s) == 2: segs.append((s[0], s[1], None))
         else:
-            src = mp['sources'][s[2]] if 0 <= s[2] < len(mp['sources']) else '?%d' % s[2]
+            src = with_root(mp.get('sourceRoot'), mp['sources'][s[2]]) if 0 <= s[2] < len(mp['sources']) else '?%d' % s[2]
             nm = None
             if len(s) == 6: nm = mp['names'][s[5]] if 0 <= s[5] < len(mp['names']) else '?%d' % s[5]
             segs.append((s[0], s[1], (src, s[3], s[4], nm)))
@@ -536,6 +541,68 @@ def c13(obs):
     return v
 
 
+def find_sms(tree):
+    """(sms spec, character offset) when the tree is a SourceMapSource or a ConcatSource whose FIRST leaf is one"""
+    t = tree
+    while True:
+        if t['kind'] == 'sms': return t
+        if t['kind'] in ('boxed', 'cached'): t = t['inner']; continue
+        if t['kind'] in ('concat', 'concat_add') and t['children']: t = t['children'][0]; continue
+        return None
+
+
+def c08(obs):
+    tree = obs.get('tree')
+    sms = find_sms(tree) if tree else None
+    if sms is None or sms.get('inner_map') is not None: return []
+    v = []
+    M = sms['map']
+    msegs = map_segs(M)
+    text = sms['text']
+    pos, end = positions(text)
+    direct = tree['kind'] == 'sms'
+    # columns = true, normal mode: every character
+    for k in ('c1f0', 'c1f1'):
+        s = obs['streams'].get(k)
+        if s is None: continue
+        st = stream_attr(s)
+        for (l, c) in pos:
+            a, b = lookup(st, l, c), lookup(msegs, l, c)
+            if a != b:
+                v.append(('C08', '%s: character at (%d,%d) is attributed to %r by the stream but to %r by the given map %r' % (k, l, c, a, b, M['mappings']))); break
+    for k in ('c0f0', 'c0f1'):
+        s = obs['streams'].get(k)
+        if s is None: continue
+        st = stream_attr(s)
+        lines = sorted({p[0] for p in pos})
+        for l in lines:
+            fa = next((x[2] for x in st if x[0] == l and x[2] is not None), None)
+            fb = next((x[2] for x in msegs if x[0] == l and x[2] is not None), None)
+            ea = None if fa is None else (fa[0], fa[1], fa[3])
+            eb = None if fb is None else (fb[0], fb[1], None)
+            if ea != eb:
+                v.append(('C08', '%s: line %d is attributed to %r by the stream, the map\'s first mapped segment says %r (names dropped) [%r]' % (k, l, ea, eb, M['mappings']))); break
+    if direct:
+        for k, s in obs['streams'].items():
+            if text == '' : continue
+            _, srcs, names = tables_of(s['events'])
+            want_s = {i: (with_root(M.get('sourceRoot'), n), (M.get('sourcesContent') or [None] * 99)[i] if i < len(M.get('sourcesContent') or []) else None) for i, n in enumerate(M.get('sources', []))}
+            if srcs != want_s: v.append(('C08', '%s: declared sources %r differ from the map\'s %r' % (k, srcs, want_s)))
+            if k.startswith('c1'):
+                want_n = {i: n for i, n in enumerate(M.get('names', []))}
+                if names != want_n: v.append(('C08', '%s: declared names %r differ from the map\'s %r' % (k, names, want_n)))
+    # through map() of the enclosing source (or of the SourceMapSource itself)
+    mp = obs['maps'].get('c1', 'absent')
+    if mp != 'absent':
+        got = map_segs(mp)
+        for (l, c) in pos:
+            a, b = lookup(got, l, c), lookup(msegs, l, c)
+            if a != b:
+                v.append(('C08', 'map(): character at (%d,%d) resolves to %r, the given map says %r' % (l, c, a, b))); break
+    return v
+
+
+ALL['C08'] = c08
 ALL['C05'] = c05
 ALL['C13'] = c13
 ALL['C06'] = c06
